@@ -26,7 +26,7 @@ func loadKnown(path string) ([]knownFinding, []string) {
 	}
 	var out []knownFinding
 	var fixed []string
-	re := regexp.MustCompile(`^known:\s+property=(\S+)\s+obligation=(\S+)\s*(.*)$`)
+	re := regexp.MustCompile(`^known:\s+property=(\S+)\s+(?:obligation|assumption)=(\S+)\s*(.*)$`)
 	for _, l := range strings.Split(string(data), "\n") {
 		l = strings.TrimSpace(l)
 		if strings.HasPrefix(l, "fixed:") {
@@ -272,7 +272,7 @@ var namedAssumptions = []string{
 var consensusAssumptions = []string{
 	"T1: the verifier itself (govc: Go semantics of the supported subset; struct values held in slices are references to copies; pointers to non-struct values are per-type boxes), go/types, the SMT solvers",
 	"T2: partial correctness only; termination is not proved",
-	"A-GOB: encoding/gob is not modelled beyond its interface: Encode receives the value it is given, Decode leaves an arbitrary value of the pointee's type. That Decode reproduces what Encode was given, that different values have different encodings and that trailing bytes are ignored is assumed, not proved; the round trip and the sensitivity of the hash to every field follow from the proved field-completeness clauses only together with this assumption",
+	"A-GOB: encoding/gob is not modelled beyond its interface: Encode receives the value it is given, Decode leaves an arbitrary value of the pointee's type. That Decode reproduces what Encode was given and that different values have different encodings is assumed, not proved; the round trip and the sensitivity of the hash to every field follow from the proved field-completeness clauses only together with this assumption. KNOWN TO HOLD ONLY WITHIN ONE PROCESS: gob writes process-wide type numbers (assigned in order of first use) into the stream, so the same payload hashes differently in a process that encoded another message kind first (replays_known/C19_gob_type_ids_test.go.txt, DESIGN.md section 14)",
 	"A-HASH: crypto.Hash256 is a function of the bytes (pure); SHA-256 collision resistance, ECDSA correctness and the Merkle construction (internal/crypto, internal/merkle, Go's crypto) are outside the contracts; merkle.NewMerkleTree/Root are assumed to return a root for a non-empty list",
 	"A-DISPATCH: interface values of dbft.ConsensusPayload and Serializable handled inside the package are its own *Payload and body types (the extern clauses for ConsensusPayload.SetValidatorIndex, Serializable.EncodeBinary/DecodeBinary restate the proved contracts of those methods)",
 	"A-FRESH: an object allocated by new/&T{} differs from every reference the state held before (Go allocation)",
@@ -330,6 +330,12 @@ func cmdCheck(args []string) int {
 	proved := 0
 	var knownHit []string
 	var samples []any
+	// findings about a named ASSUMPTION of the property (nothing the contracts could decide; they suppress nothing)
+	for _, k := range known {
+		if k.Property == prop && strings.HasPrefix(k.Obligation, "A-") {
+			fmt.Printf("KNOWN-FINDING: property=%s assumption=%s %s\n", prop, k.Obligation, k.Text)
+		}
+	}
 	replayDir := filepath.Join(verifDir, "replays", prop)
 	for _, s := range oc.sites {
 		if s.Verdict == "proved" {
